@@ -44,9 +44,14 @@ fn world_cases(ctx: &AllCtx) -> Vec<Case> {
         for d in [Dir::Client, Dir::Server] {
             let msgs = ctx.world.model(e).messages_dir(d);
             v.push(Case { login: None, exp: e, dir: d, name: crate::c02::warden_name(d).to_string() });
+            // compressed messages override their (encrypted) writers in every flavour
+            let comp = ctx.world.compressed_names(e, d).clone();
+            for n in &comp {
+                v.push(Case { login: None, exp: e, dir: d, name: n.clone() });
+            }
             // a spread of other messages (deterministic: every 40th by name order)
             for (i, c) in msgs.iter().enumerate() {
-                if i % 40 == 7 {
+                if i % 40 == 7 && !comp.contains(&c.name) {
                     v.push(Case { login: None, exp: e, dir: d, name: c.name.clone() });
                 }
             }
@@ -349,6 +354,42 @@ impl Check for C06 {
             for (tag, b) in outs.iter().skip(1) {
                 if *b != reference {
                     o.violate("writers_agree", format!("writer-differs:{}:{}", tag, case.label().split(':').next().unwrap_or("")), format!("{}: {} writer emitted {} where the blocking writer emitted {}", sc["label"].as_str().unwrap_or(""), tag, b.as_ref().map(|x| hex(x)).unwrap_or("an error/panic".into()).chars().take(120).collect::<String>(), reference.as_ref().map(|x| hex(x)).unwrap_or("an error/panic".into()).chars().take(120).collect::<String>()));
+                }
+            }
+            // world: the three flavours of the ENCRYPTED writers are separate copies too (and compressed messages override them)
+            if case.login.is_none() {
+                if let Ok(m) = read_plain(case.exp, case.dir, &stream).0 {
+                    let mut eouts: Vec<(String, Option<Vec<u8>>)> = Vec::new();
+                    for (fl, sched, tag) in [(Flavour::Sync, &whole, "sync"), (Flavour::Sync, &ss, "sync-chunked"), (Flavour::Tokio, &st, "tokio"), (Flavour::Astd, &sa, "astd")] {
+                        let mut crypto = session_crypto(case.exp, [9u8; 40]);
+                        let enc = match case.dir {
+                            Dir::Client => &mut crypto.client_enc,
+                            Dir::Server => &mut crypto.server_enc,
+                        };
+                        let mut w = SimWriter::new(sched);
+                        let budget = 16 * stream.len() as u64 + 4096;
+                        match guarded(|| write_enum(&m, fl, Some(enc), &mut w, budget)) {
+                            Err((msg, loc)) => {
+                                o.count("skipped_writer_panics", 1);
+                                log.str(&panic_sig(&msg, &loc));
+                                eouts.push((tag.to_string(), None));
+                            }
+                            Ok(x) => {
+                                if x.budget_exceeded {
+                                    o.violate("bounded_liveness", format!("write-stall-encrypted:{}", tag), format!("{} encrypted writer did not complete within the step budget", tag));
+                                }
+                                eouts.push((tag.to_string(), if x.result.is_err() { None } else { Some(w.data.clone()) }));
+                                log.u64(w.log.0);
+                            }
+                        }
+                    }
+                    let reference = eouts[0].1.clone();
+                    for (tag, b) in eouts.iter().skip(1) {
+                        if *b != reference {
+                            o.violate("writers_agree", format!("writer-differs-encrypted:{}:{}", tag, case.label().split(':').next().unwrap_or("")), format!("{}: {} encrypted writer emitted {} where the blocking encrypted writer emitted {}", sc["label"].as_str().unwrap_or(""), tag, b.as_ref().map(|x| hex(x)).unwrap_or("an error/panic".into()).chars().take(120).collect::<String>(), reference.as_ref().map(|x| hex(x)).unwrap_or("an error/panic".into()).chars().take(120).collect::<String>()));
+                        }
+                    }
+                    o.count("encrypted_writer_comparisons", 1);
                 }
             }
             o.count("write_runs", 1);
